@@ -13,7 +13,7 @@ from pyvc.engine import Contract, Frame, LoopSpec, PURE
 from pyvc.values import forall, ANY, BOOL, FUNC, INT, LIST, NONE, OPT, REF, fresh
 
 from .spec import (
-    Disp, Inst, OBS_FIELDS, contains, derived, feasible,
+    Disp, Inst, OBS_FIELDS, bv, contains, derived, feasible,
     imp, reach, rng, upd_tracking, valid_instance, zmax,
 )
 
@@ -184,7 +184,7 @@ class InstNumJobs(Contract):
 # ---------------------------------------------------------------------------
 def sched_wf(h, S):
     """shape of a list of machine lists of scheduled operations"""
-    m, m2, i = fresh("m"), fresh("m2"), fresh("i")
+    m, m2, i = bv("m"), bv("m2"), bv("i")
     Sm = lambda t: h.at(S, t)
     x = h.at(Sm(m), i)
     return [
@@ -206,7 +206,7 @@ def so_end(h, x):
 
 def sched_valid(h, S):
     """what Schedule.check_schedule accepts"""
-    m, i = fresh("m"), fresh("i")
+    m, i = bv("m"), bv("i")
     x = h.at(h.at(S, m), i)
     prev = h.at(h.at(S, m), i - 1)
     return forall([m, i], imp(z3.And(rng(m, 0, h.len(S)), rng(i, 0, h.len(h.at(S, m)))),
@@ -246,7 +246,7 @@ class ScheduleCheckSchedule(Contract):
         return [("ValidationError", "invalid-schedule", z3.Not(sched_valid(c.h0, c["schedule"])))]
 
     def _row_ok(self, h, S, m, upto):
-        i = fresh("i")
+        i = bv("i")
         x = h.at(h.at(S, m), i)
         prev = h.at(h.at(S, m), i - 1)
         return forall([i], imp(rng(i, 0, upto),
@@ -258,7 +258,7 @@ class ScheduleCheckSchedule(Contract):
     def loops(self):
         def outer(k):
             h, S = k.h0, k["schedule"]
-            m = fresh("m")
+            m = bv("m")
             return [("rows-before-ok", forall([m], imp(rng(m, 0, k.i), self._row_ok(h, S, m, h.len(h.at(S, m))))))]
 
         def inner(k):
@@ -305,7 +305,7 @@ class ScheduleScheduleSetter(Contract):
 
 def fresh_empty_schedule(h0, h1, S1, M):
     """S1 is a brand-new list of M brand-new empty lists"""
-    m, m2 = fresh("m"), fresh("m2")
+    m, m2 = bv("m"), bv("m2")
     Sm = lambda t: h1.at(S1, t)
     return [
         ("new-outer", z3.And(S1 >= h0.alloc, S1 < h1.alloc, h1.len(S1) == M)),
@@ -395,7 +395,7 @@ class ScheduleMakespan(Contract):
     @staticmethod
     def spec(h, S, upto, r):
         """r is the maximum over machines < upto of the end of the last operation (0 if none)"""
-        m = fresh("m")
+        m = bv("m")
         last_end = lambda t: so_end(h, h.at(h.at(S, t), h.len(h.at(S, t)) - 1))
         nonempty = lambda t: h.len(h.at(S, t)) > 0
         return z3.And(
@@ -484,7 +484,7 @@ def core_lists_kept(h0, h1, d, except_lists=()):
     instance have the same length and content in h1 as in h0"""
     D = Disp(h0, d)
     born = h0.get("$born", d)
-    m, l = fresh("m"), fresh("l")
+    m, l = bv("m"), bv("l")
     own = [x for x in (D.S, D.mnat, D.k, D.jnat, D.subs) if not any(x.eq(e) for e in except_lists)]
     out = [same_list(h0, h1, x) for x in own]
     ex = [e for e in except_lists]
@@ -509,13 +509,24 @@ def last_dispatched(h, d, x):
 
 def empty_state(h, d):
     D = Disp(h, d)
-    m, j = fresh("m"), fresh("j")
+    m, j = bv("m"), bv("j")
     return [("no-operation-scheduled", forall([m], imp(rng(m, 0, D.M), z3.And(D.nS(m) == 0, D.mn(m) == 0)),
                                                  patterns=[D.Sm(m)])),
             ("machines-free-at-0", forall([m], imp(rng(m, 0, D.M), D.mn(m) == 0), patterns=[D.mn(m)])),
             ("jobs-at-first-operation", forall([j], imp(rng(j, 0, D.it.J), z3.And(D.kj(j) == 0, D.jn(j) == 0)),
                                                   patterns=[D.kj(j)])),
             ("jobs-ready-at-0", forall([j], imp(rng(j, 0, D.it.J), D.jn(j) == 0), patterns=[D.jn(j)]))]
+
+
+def _observer_dispatcher(c):
+    """The dispatcher an observer call is about.  When the caller under verification
+    names it (`dispatcher_term`), the pre-condition is stated for that very term and the
+    observer's own `dispatcher` field is required to equal it; otherwise the field."""
+    eng = c.eng
+    hint = getattr(eng.cur, "dispatcher_term", None) if eng is not None and eng.cur is not None else None
+    if hint is not None:
+        return hint(eng)
+    return c.h0.get("dispatcher", c["self"])
 
 
 @register
@@ -530,9 +541,10 @@ class ObserverUpdate(Contract):
 
     def requires(self, c):
         h = c.h0
-        d = h.get("dispatcher", c["self"])
-        return [("observer", c["self"] > 0)] + reach(h, d) + \
-               [("sees-dispatched-operation-in-schedule", last_dispatched(h, d, c["scheduled_operation"]))]
+        d = _observer_dispatcher(c)
+        return [("observer", c["self"] > 0), ("observer-belongs-to-dispatcher", h.get("dispatcher", c["self"]) == d)] \
+            + reach(h, d) + \
+            [("sees-dispatched-operation-in-schedule", last_dispatched(h, d, c["scheduled_operation"]))]
 
     def modifies(self, c):
         return obs_frame()
@@ -547,8 +559,9 @@ class ObserverReset(Contract):
 
     def requires(self, c):
         h = c.h0
-        d = h.get("dispatcher", c["self"])
-        return [("observer", c["self"] > 0)] + reach(h, d) + empty_state(h, d)
+        d = _observer_dispatcher(c)
+        return [("observer", c["self"] > 0), ("observer-belongs-to-dispatcher", h.get("dispatcher", c["self"]) == d)] \
+            + reach(h, d) + empty_state(h, d)
 
     def modifies(self, c):
         return obs_frame()
@@ -674,7 +687,7 @@ class DispUnsubscribe(Contract):
         h0, h, d = c.h0, c.h, c["self"]
         subs = h0.get("subscribers", d)
         n = h0.len(subs)
-        w, q = fresh("w"), fresh("q")
+        w, q = bv("w"), bv("q")
         first = z3.And(rng(w, 0, n), h0.at(subs, w) == c["observer"],
                        forall([q], imp(rng(q, 0, w), h0.at(subs, q) != c["observer"])),
                        forall([q], imp(rng(q, 0, n - 1),
@@ -696,6 +709,9 @@ def _tracking_frame(h, d, extra_fields=None, extra_lists=(), alloc_objects=False
 class DispUpdateTracking(Contract):
     name = "Dispatcher._update_tracking_attributes"
     properties = ("C01", "C02", "C05", "C10")
+
+    def dispatcher_term(self, eng):
+        return eng.args0["self"].t
 
     def requires(self, c):
         h, d, x = c.h0, c["self"], c["scheduled_operation"]
@@ -795,7 +811,7 @@ class DispDispatch(Contract):
         # ghost: which entry of the operation's machine list the chosen machine is (a
         # definitional choice: the witness of the eligibility test that just passed)
         x = st.env["scheduled_operation"].t
-        qw, q = fresh("mqw"), fresh("q")
+        qw, q = fresh("mqw"), bv("q")
         ok = lambda t: z3.And(rng(t, 0, D.it.nmach(o)), D.it.mach(o, t) == eff)
         st.assume(imp(z3.Exists([q], ok(q)), ok(qw)))
         st.heap = st.heap.put("$mq", x, qw)
@@ -811,7 +827,7 @@ class DispDispatch(Contract):
         j = D0.it.jid(o)
         n = D0.nS(m)
         x = D1.x(m, n)
-        q = fresh("q")
+        q = bv("q")
         start = zmax(D0.mn(m), D0.jn(j))
         return [
             ("appended-on-chosen-machine", z3.And(
@@ -860,6 +876,9 @@ class DispInit(Contract):
 class DispReset(Contract):
     name = "Dispatcher.reset"
     properties = ("C02", "C10", "C12")
+
+    def dispatcher_term(self, eng):
+        return eng.args0["self"].t
 
     def requires(self, c):
         return reach(c.h0, c["self"])
